@@ -111,6 +111,8 @@ def run_batch(engine, tier, hs, stats, known, max_examples, deadline, shrink_s=6
     from hypothesis import HealthCheck, Phase, given, seed, settings
 
     failure = {}
+    # engines that enumerate many runs per plan stop enumerating at this time
+    engine.deadline = deadline + 20
 
     def classify(plan, shrinking):
         st = Stats() if shrinking else stats
